@@ -203,7 +203,10 @@ def p2(repo, res):
                                 problems.append(f"`{a.id}` is re-bound before it reaches R.{ctor.func.attr}")
                 if n == "rotate_from_angax":
                     # degrees handled by hand: the conversion must be conditional on `degrees`
-                    conv = [s for s in ast.walk(fn) if isinstance(s, ast.If) and "degrees" in ast.unparse(s.test)]
+                    # (an `if`, a conditional expression, or the flag handed on to a helper / NumPy: any read that is not the type check)
+                    checked = {id(x) for c_ in ast.walk(fn) if isinstance(c_, ast.Call) and (call_name(c_) or "").startswith(("check_", "validate_"))
+                               for x in ast.walk(c_)}
+                    conv = [x for x in ast.walk(fn) if isinstance(x, ast.Name) and x.id == "degrees" and isinstance(x.ctx, ast.Load) and id(x) not in checked]
                     if not conv:
                         problems.append("`degrees` flag is not consulted")
         res.ob(f"P2:{n}", not problems, {"rule": "P2", "method": n, "returns": norm(rets[0]) if rets else None, "problems": problems})
